@@ -501,7 +501,10 @@ func c08Scenario() *hist.Scenario {
 		RootName: "root",
 		Init: `{{define "brk"}}{{range .L}}{{break}}{{end}}{{end}}{{define "cnt"}}{{range .L}}{{continue}}{{end}}{{end}}` +
 			`{{define "bad"}}<a {{end}}{{define "cb"}}x{{template "bad"}}{{end}}{{define "empty"}}{{end}}{{define "ce"}}{{template "empty"}}{{end}}` +
-			`{{define "cmt"}}a{{/* c */}}b{{end}}{{define "tagend"}}<my-{{end}}{{define "tagend2"}}<svg:{{end}}ROOT`,
+			`{{define "cmt"}}a{{/* c */}}b{{end}}{{define "tagend"}}<my-{{end}}{{define "tagend2"}}<svg:{{end}}` +
+			// functions that call back into the set during an execution
+			`{{define "item"}}<li>{{.}}</li>{{end}}{{define "pp"}}<ul>{{range .L}}{{partial "item" .}}{{end}}</ul>{{end}}` +
+			`{{define "hs"}}{{if has "item"}}{{template "item" .S}}{{end}}{{count}}{{end}}{{define "pbad"}}{{partial "bad" .}}{{end}}ROOT`,
 		Texts: []string{`{{define "x"}}{{.S}`, `{{define "bad"}}ok{{end}}`, `<p {{.S}}>x</p>`, `<p>{{.S}}</p>`},
 		Data:  histData(),
 	}
@@ -509,7 +512,7 @@ func c08Scenario() *hist.Scenario {
 
 func c08Alphabet() []hist.Op {
 	var ops []hist.Op
-	for _, name := range []string{"brk", "cnt", "bad", "cb", "empty", "ce", "cmt", "tagend", "tagend2", "nope"} {
+	for _, name := range []string{"brk", "cnt", "bad", "cb", "empty", "ce", "cmt", "tagend", "tagend2", "nope", "pp", "hs", "pbad"} {
 		ops = append(ops, hist.Op{Kind: hist.Exec, H: 0, Form: 2, Name: name, Arg: 0})
 	}
 	ops = append(ops,
